@@ -116,6 +116,7 @@ type evalCtx struct {
 	sawErr bool   // an error / out-of-domain / non-finite value occurred somewhere: only the weak oracle applies
 	why    string // first reason
 	diffFn bool   // a differential (Execute-defined) function value was used
+	tr     map[*Node]rv // optional trace: value of every node
 }
 
 func (c *evalCtx) fail(format string, a ...any) rv {
@@ -136,6 +137,14 @@ func typedNull(t string) rv {
 // eval is the reference interpreter: SQL semantics over float64, Kleene logic, eager (no short circuit,
 // so that an error anywhere marks the row as weak-oracle only).
 func (c *evalCtx) eval(n *Node) rv {
+	v := c.eval1(n)
+	if c.tr != nil {
+		c.tr[n] = v
+	}
+	return v
+}
+
+func (c *evalCtx) eval1(n *Node) rv {
 	switch n.Op {
 	case "col":
 		v, ok := c.row[n.V]
